@@ -68,7 +68,7 @@ REFACTORS = [
     ("refactor_parallel_import_mp_module", "C08,C15", "inference/mcmc/parallel.py",
      ["from multiprocessing import Process, Pipe, Event, Pool\n", "        self.pool = Pool(self.pool_size)", "        self.shutdown_evt = Event()",
       "            parent_ctn, child_ctn = Pipe()", "            p = Process(\n"],
-     ["import multiprocessing as _mp\n", "        self.pool = _mp.Pool(self.pool_size)", "        self.shutdown_evt = _mp.Event()",
+     ["import multiprocessing as _mp\nfrom multiprocessing import Event\n", "        self.pool = _mp.Pool(self.pool_size)", "        self.shutdown_evt = _mp.Event()",
       "            parent_ctn, child_ctn = _mp.Pipe()", "            p = _mp.Process(\n"]),
     ("refactor_ensemble_z_inverse_cdf", "C01,C03,C09", "inference/mcmc/ensemble.py",
      "        z = 0.5 * (self.x_lwr + self.x_width * self.rng.random()) ** 2",
